@@ -340,9 +340,49 @@ def unpack4 (signed : Bool) : Val → Option Val
     some (.vec ((List.range 4).map (fun i => if signed then .i32 (sx (byte i)) else .u32 (byte i))))
   | _ => none
 
+/-! ## extractBits / insertBits (WGSL §17.5: `o = min(offset, 32)`, `c = min(count, 32 − o)`; exact integer definitions) -/
+
+/-- bits `[o, o + c)` of `e`, zero- or sign-extended; `o + c ≤ 32` -/
+def extractField (signed : Bool) (e : W) (o c : Nat) : W :=
+  if c = 0 then 0#32 else
+  let mask : W := BitVec.ofNat 32 (2 ^ c - 1)
+  let field := (e >>> o) &&& mask
+  if signed && field.getLsbD (c - 1) then field ||| ~~~mask else field
+
+/-- `e` with bits `[o, o + c)` replaced by the low `c` bits of `n`; `o + c ≤ 32` -/
+def insertField (e n : W) (o c : Nat) : W :=
+  let mask : W := (BitVec.ofNat 32 (2 ^ c - 1)) <<< o
+  (e &&& ~~~mask) ||| ((n <<< o) &&& mask)
+
+def clampOC (o c : W) : Nat × Nat :=
+  let o' := min o.toNat 32
+  (o', min c.toNat (32 - o'))
+
+def extractBitsVal (e o c : Val) : Option Val :=
+  match o, c with
+  | .u32 o, .u32 c =>
+    let (o', c') := clampOC o c
+    mapVal (fun v => match v with
+      | .i32 a => some (.i32 (extractField true a o' c'))
+      | .u32 a => some (.u32 (extractField false a o' c'))
+      | _ => none) e
+  | _, _ => none
+
+def insertBitsVal (e n o c : Val) : Option Val :=
+  match o, c with
+  | .u32 o, .u32 c =>
+    let (o', c') := clampOC o c
+    zipVal (fun x y => match x, y with
+      | .i32 a, .i32 b => some (.i32 (insertField a b o' c'))
+      | .u32 a, .u32 b => some (.u32 (insertField a b o' c'))
+      | _, _ => none) e n
+  | _, _ => none
+
 /-- Builtin call by WGSL name. -/
 def builtin (name : String) (args : List Val) : Option Val :=
   match name, args with
+  | "extractBits", [e, o, c] => extractBitsVal e o c
+  | "insertBits", [e, n, o, c] => insertBitsVal e n o c
   | "pack4xI8", [v] => pack4 false false v
   | "pack4xU8", [v] => pack4 false false v
   | "pack4xI8Clamp", [v] => pack4 true false v
